@@ -91,7 +91,7 @@ def check(ctx):
     res = [s for s in statements(f.node) if isinstance(s, ast.If) and ast.unparse(s.test) == "not isinstance(result, bool)"]
     ctx.check(len(res) == 1 and any(isinstance(x, ast.Raise) for x in res[0].body), R, f, "bool result", "a non-bool predicate result is refused", "the bool check on the predicate result changed")
     F = Facts(f)
-    ctx.check("level.window.predicate(*args)" in "".join(F.assigns("result")) or F.assigns("result") == ["level.window.predicate(*args)"], R, f, "predicate call",
+    ctx.check(len(F.assigns("result")) == 1 and F.assigns("result")[0].startswith("level.window.predicate(*"), R, f, "predicate call",
               "each level's predicate is evaluated on each window of the cross product", "predicate evaluation changed: %s" % F.assigns("result"))
     acc = [s for s in statements(f.node) if isinstance(s, ast.If) and ast.unparse(s.test) == "result"]
     ctx.check(len(acc) == 1 and any(x is guards[0] for x in acc[0].body) if guards else False, R, f, "accept branch", "the overlap test sits in the branch where the level accepts the window",
